@@ -60,7 +60,7 @@ var wrapperRef = map[string]map[string]string{
 		"EncryptMessage":  `crypto/rfc3961\.DES3EncryptMessage\(key, message, usage, recv\)`,
 		"DecryptData":     `crypto/rfc3961\.DES3DecryptData\(key, data, recv\)`,
 		"DecryptMessage":  `crypto/rfc3961\.DES3DecryptMessage\(key, ciphertext, usage, recv\)`,
-		"DeriveKey":       `crypto\.\(Des3CbcSha1Kd\)\.DeriveRandom\(recv, protocolKey, usage\)`,
+		"DeriveKey":       `crypto\.\(Des3CbcSha1Kd\)\.DeriveRandom\(recv, protocolKey, usage\)|crypto/rfc3961\.DeriveKey\(protocolKey, usage, recv\)`,
 		"DeriveRandom":    `crypto/rfc3961\.DeriveRandom\(protocolKey, usage, recv\)`,
 		"VerifyIntegrity": `crypto/rfc3961\.VerifyIntegrity\(protocolKey, ct, pt, usage, recv\)`,
 	},
@@ -269,11 +269,27 @@ func runC07(w *World, c *Check) {
 	checkCalls(w, c, "C07.construct", "crypto/common.GetHash", []CallSpec{
 		{Name: "derive", Desc: "the HMAC key is DeriveKey(key, usage constant) of the etype", Callee: `crypto/etype\.EType\.DeriveKey`, Want: `crypto/etype\.EType\.DeriveKey\(etype, key, usage\)`},
 		{Name: "hmac-keyed", Desc: "HMAC with the etype's hash, keyed by the derived key", Callee: `crypto/hmac\.New`, Want: `crypto/hmac\.New\(crypto/etype\.EType\.GetHashFunc\(etype\), crypto/etype\.EType\.DeriveKey\(etype, key, usage\)#0\)`},
-		{Name: "data-written", Desc: "the data (a copy of pt) is what is hashed", Callee: `hash\.Hash\.Write`, Want: `hash\.Hash\.Write\(crypto/hmac\.New\(.*\), make\(\[\]byte, len\(pt\)\)\)`},
-		{Name: "copy-of-pt", Desc: "the hashed buffer is filled from pt", Callee: `copy`, Want: `copy\(make\(\[\]byte, len\(pt\)\), pt\)`},
 	})
 	if fn := w.Func("crypto/common.GetHash"); fn != nil {
 		fa := NewFuncAn(w, fn)
+		// what is hashed is pt and nothing else — handed over directly or through a copy
+		writes := fa.CallsDeep(`hash\.Hash\.Write`)
+		okData := len(writes) == 1
+		detail := fmt.Sprintf("%d Write calls", len(writes))
+		for _, dc := range writes {
+			args := dc.ci.Common().Args
+			if len(args) != 1 {
+				okData = false
+				continue
+			}
+			ps, total := dc.fa.BufferPlaces(args[0])
+			pt := substParams(fn, "pt")
+			detail = "hashes " + placesString(ps) + " (length " + total + ")"
+			if !(len(ps) == 1 && ps[0].What == pt && ps[0].Off == "0" && total == "len("+pt+")" && fullMatch(`crypto/hmac\.New\(.*\)`, dc.fa.R.R(dc.ci.Common().Value))) {
+				okData = false
+			}
+		}
+		c.Decide(okData, "C07.construct", FuncKey(fn), "data-written", w.Pos(fn.Pos()), "the data (pt, directly or as a copy) is what is hashed, by the keyed HMAC", detail)
 		ok := false
 		var got []string
 		for _, rs := range fa.returnsOf() {
